@@ -328,9 +328,16 @@ def seeding(check: Check, repo) -> None:
                 n += 1
     if not n:
         raise AnalysisError("anchor vanished: no generated module skeleton has a parse() entry point")
-    fail = ast.unparse(repo.func("src/pest/state.py", "ParserState.fail"))
-    ok = "self.furthest_pos = pos" in fail and "self.pos" in fail
-    check.oblige("SEED", "src/pest/state.py::ParserState.fail", "fail() records absolute offsets (self.pos)" if ok else "fail() does not record self.pos", ok)
+    # fail() records the absolute offset of the cursor: decided on the model histories of C13's FAIL rule (the state's
+    # position varied; the recorded position must be the greatest a recorded failure had), whatever fail() looks like
+    from ..failsem import check_fail
+
+    n_f, bad_f = check_fail(repo, "C16 SEED")
+    pos_bad = [b for b in bad_f if "position" in b[0] or "raises" in b[0]]
+    check.count("fail_model_histories", n_f)
+    ok = not pos_bad
+    what = f"fail() records the absolute offset of the cursor on all {n_f} model histories" if ok else "fail() does not record the cursor's absolute offset"
+    check.oblige("SEED", "src/pest/state.py::ParserState.fail", what, ok, finding=None if ok else Finding("SEED", "src/pest/state.py::ParserState.fail", what, f"{what}: {pos_bad[0][0]}: {pos_bad[0][1]}", {"witness": pos_bad[0][1]}))
     check.count("seed_facts", 2)
 
 
